@@ -19,8 +19,11 @@ LEVEL = ("Static analysis of linfa's metrics. Decided: (delegate) every multi-ta
          "the one precision fixes, recall fixes the other, and split_one_vs_all takes false positives from it (binary "
          "precision / recall of the pinned tree fix the wrong axes: known findings); (count) every (prediction, truth) "
          "pair adds exactly one to one cell of a classes x classes matrix, both indices looked up in the same class list; "
-         "(pairs) split_one_vs_one enumerates the pairs i < j; (accuracy) accuracy is trace / total. Not decided: the "
-         "numerical definitions themselves (MCC, F-beta, AUC, log-loss, silhouette, Pearson).")
+         "(pairs) split_one_vs_one enumerates the pairs i < j; (accuracy) accuracy is trace / total; (formula) the regression "
+         "scores except the median, F-beta, the macro averages of precision / recall and the log-loss are, as rational "
+         "functions of their inputs (sums expanded by linearity, |u| / ln u / clip u uninterpreted, regularisers of at "
+         "most 1e-6 dropped), the textbook definitions; multi-target scores that do not delegate are read column-wise. "
+         "Not decided: MCC, AUC and its ties, silhouette, Pearson as numbers; rounding.")
 ASSUME = ["rustc resolution/typeck; HIR faithfully dumped", "in ToConfusionMatrix::confusion_matrix(&self, ground_truth) the receiver is the prediction (the parameter is named ground_truth)"]
 
 
